@@ -138,7 +138,8 @@ impl SimState {
         let probe = 0u8;
         let sp = &probe as *const u8 as usize;
         let base = self.sp_base.get();
-        if base != 0 && sp < base {
+        // (under Miri locals are separate allocations: their addresses say nothing about depth)
+        if !cfg!(miri) && base != 0 && sp < base {
             let depth = base - sp;
             if depth > self.sp_max_depth.get() {
                 self.sp_max_depth.set(depth);
